@@ -306,6 +306,15 @@ class Program:
                 st.heap[oid] = ArrObj(kind, arr=z3.Array(name, IntS, kind_sort(kind)), length=n,
                                       origin=origin, name=name, pykind='cblock')
                 return Ptr(oid, 0)
+            if desc == 'series_collection':
+                # a Python list / SeriesContainer of series: element k is a read-only series object
+                cnt = z3.Int(name + '_len')
+                st.assume(cnt >= 0)
+                S = z3.Array(name, IntS, z3.ArraySort(IntS, Val))
+                lenfn = z3.Function(name + '_rowlen', IntS, IntS)
+                oid = st.new_oid('P')
+                st.heap[oid] = ArrObj('rows', arr=(S, lenfn), length=cnt, origin=origin, name=name, pykind='list')
+                return Ref(oid)
             if desc == 'cptrs':
                 # seq_t **ptrs: an array of pointers to separate series blocks
                 cnt = z3.Int(name + '_size')
